@@ -57,6 +57,9 @@ MM7 == [root |-> "Model",
         abstracts |-> << [name |-> "Elem", subs |-> <<"Base", "Other", "Use", "Refs">>],
                          [name |-> "Base", subs |-> <<"Sub1", "Sub2">>] >>]
 
+\* MM7 without nesting (Sub2 has no contents): the flat part of the C07 universe
+MM7F == [MM7 EXCEPT !.classes[3].attrs = << >>]
+
 NoNames == << >>
 XY      == <<"x", "y">>
 NoDev   == {}
@@ -65,8 +68,8 @@ NoDev   == {}
 \* TLC re-evaluates the right-hand side of a cfg substitution `C <- D` at every
 \* use of C, but caches an ordinary constant-level definition: hence D == D0.
 EnvDev0      == IF IOEnv.VT_DEV = "" THEN {} ELSE {IOEnv.VT_DEV}
-EnvMM0       == IF IOEnv.VT_NAV_MM = "MM7" THEN MM7 ELSE MM5
-EnvNames0    == IF IOEnv.VT_NAV_MM = "MM7" THEN XY ELSE NoNames
+EnvMM0       == CASE IOEnv.VT_NAV_MM = "MM7" -> MM7 [] IOEnv.VT_NAV_MM = "MM7F" -> MM7F [] OTHER -> MM5
+EnvNames0    == IF IOEnv.VT_NAV_MM \in {"MM7", "MM7F"} THEN XY ELSE NoNames
 EnvMaxN0     == atoi(IOEnv.VT_NAV_MAXN)
 EnvMaxNamed0 == atoi(IOEnv.VT_NAV_MAXNAMED)
 EnvMaxUn0    == atoi(IOEnv.VT_NAV_MAXUNNAMED)
